@@ -1089,6 +1089,35 @@ Proof.
   - pose proof (Sync_case fs KUnmap) as G. destruct (do_sync s fs KUnmap). exact G.
 Qed.
 
+(** clause 5: a mode request does not revive a replica marked ERR *)
+Lemma is_mode_in_2 : forall l a m, is_mode l a m = true -> In (a, m) l.
+Proof.
+  intros l a m H. unfold is_mode in H. apply existsb_exists in H. destruct H as [[k v] [Hin Hk]].
+  cbn in Hk. apply andb_prop in Hk. destruct Hk as [K1 K2]. apply Nat.eqb_eq in K1.
+  destruct v, m; cbn in K2; try discriminate; subst; exact Hin.
+Qed.
+
+Lemma set_mode_keeps_err : forall s a m, aget (replicas s) a = Some ERR ->
+  replicas (set_mode_nolock s a m) = replicas s.
+Proof. intros s a m Hg. unfold set_mode_nolock. rewrite Hg. reflexivity. Qed.
+
+Lemma c05_not_revived : forall s e, struct_ok s ->
+  match e with
+  | SetMode a _ =>
+      (if is_mode (replicas s) a ERR
+       then is_mode (replicas (fst (fst (step s e)))) a ERR || negb (mem a (addrs_of (replicas (fst (fst (step s e))))))
+       else true) = true
+  | _ => True
+  end.
+Proof.
+  intros s e H. destruct e; try exact I.
+  destruct (is_mode (replicas s) a ERR) eqn:E; [|reflexivity].
+  assert (R : replicas (fst (fst (step s (SetMode a m)))) = replicas s).
+  { pose proof (aget_in_nodup _ _ _ (st_nodup s H) (is_mode_in_2 _ _ _ E)) as Hg.
+    cbn [step]. destruct m; cbn [fst]; [reflexivity|apply set_mode_keeps_err; exact Hg|apply set_mode_keeps_err; exact Hg]. }
+  rewrite R, E. reflexivity.
+Qed.
+
 Lemma c05_step_model : forall rf0 n s e r0 ef0 r0',
   status_ok s -> struct_ok s -> rf s = rf0 ->
   c05_step rf0 (with_res1 (observe n s r0 ef0) r0') e
@@ -1096,7 +1125,7 @@ Lemma c05_step_model : forall rf0 n s e r0 ef0 r0',
 Proof.
   intros rf0 n s e r0 ef0 r0' Hst H Hrf. unfold c05_step.
   cbn [o_replicas o_size observe with_res1].
-  apply andb_true_intro. split; [apply andb_true_intro; split; [apply andb_true_intro; split; [apply andb_true_intro; split|]|]|].
+  apply andb_true_intro. split; [apply andb_true_intro; split; [apply andb_true_intro; split; [apply andb_true_intro; split; [apply andb_true_intro; split|]|]|]|].
   - pose proof (c05_detached rf0 s e Hst H Hrf) as G.
     destruct e; try reflexivity; exact G.
   - cbv zeta. destruct e; try reflexivity; cbn [step io_kind_fail is_io io_in_range o_size observe with_res1 andb];
@@ -1120,6 +1149,7 @@ Proof.
     destruct (mem a (in_service (replicas s))) eqn:M; [reflexivity|].
     apply mem_false in M. rewrite <- (writers_in_service s H) in M.
     apply same_reps_eq. apply io_outside_world; assumption.
+  - pose proof (c05_not_revived s e H) as G. destruct e; try reflexivity. exact G.
   - pose proof (c05_reported_gone s e H) as G. unfold is_ack. cbn [o_res observe].
     destruct e; try reflexivity;
       (destruct (res_eqb (res_class (snd (fst (step s _)))) ROk) eqn:Eack; [|reflexivity]);
